@@ -109,11 +109,16 @@ def concretize_call(case, variant):
     parts, calls = [], []
     for st in case["prog"]:
         if st["op"] == "def":
+            # every third variant: right after its definition the macro is called once with EVERY parameter passed by keyword (output
+            # discarded): a call must not leave anything behind in the macro, so the calls that follow still see the declared defaults
+            prime = ""
+            if variant % 3 == 2 and sig:
+                prime = "{% capture primed_ %}{% call " + cname + " " + ", ".join(f"{p['name']}{eq}'PRIMED'" for p in sig) + " %}{% endcapture %}"
             if case["via"] == "include":
                 templates["defs"] = macro
-                parts.append("{% include 'defs' %}")
+                parts.append("{% include 'defs' %}" + prime)
             else:
-                parts.append(macro)
+                parts.append(macro + prime)
         elif st["op"] == "call":
             calls.append(len(parts))
             parts.append(call)
